@@ -67,12 +67,12 @@ CHECKS.update({
 
 CHECKS.update({
     "C17": dict(
-        technique="static analysis: null-test dominance on the MIR CFG for extern \"C\" pointer parameters (helper summaries, closures, array idiom), C header parser compared with compiled signatures/layouts, RefCell-guard-held-across-hazard forward dataflow, unguarded-store rule, value-origin rule for reported array lengths, path rule for borrowed error strings",
-        text="Decides six structural clauses over all 64 exported functions: every use of a raw-pointer parameter as a valid pointer "
+        technique="static analysis: null-test dominance on the MIR CFG for extern \"C\" pointer parameters (helper summaries, closures, array idiom), C header parser compared with compiled signatures/layouts, RefCell-guard-held-across-hazard forward dataflow, unguarded-store rule, value-origin rule for reported array lengths, path rule for borrowed error strings, compare-before-free rule for handles given to a foreign callee",
+        text="Decides seven structural clauses over all 64 exported functions: every use of a raw-pointer parameter as a valid pointer "
              "is dominated by a NULL test; tsrun.h agrees with the compiled exports (names, arity, types, struct fields, enum "
              "values); no RefCell guard of a GC cell is held across a call that may collect or re-enter (abort in extern \"C\"); "
              "possibly-object values stored across calls carry a guard; every length reported next to a leaked boxed slice is the "
-             "len() of that very vector; a C string returned by foreign code is read before last_error is written. The fulfill_orders defect was repaired (fix: commit). "
+             "len() of that very vector; a C string returned by foreign code is read before last_error is written; a handle given to a foreign callee is freed only on the `!= result` edge when the returned pointer is taken too. The fulfill_orders and callback double-free defects were repaired (fix: commits). "
              "Aliasing and lifetime contracts of the API are not decided.",
         ref="4/C17"),
 })
